@@ -772,6 +772,13 @@ func Run(plan *Plan) *Result {
 	if plan.AntispamThreshold > 0 {
 		settings.Antispam.Threshold = plan.AntispamThreshold
 	}
+	for _, src := range plan.Sources {
+		for _, r := range src.Records {
+			if r.Refuse == "oversize" {
+				settings.MaxEventSize = OversizeLimit // records above it are refused (no cut-off)
+			}
+		}
+	}
 	name := fdkit.UniqueName("sim")
 	p := fdkit.NewPipeline(name, settings)
 	s.p = p
@@ -935,6 +942,20 @@ func Run(plan *Plan) *Result {
 		feeders := int(feedersDone.Load())
 		s.failf("C04", "not-finalized", "pipeline made no progress for %v: %d of %d feeders finished, accepted events never finalized: %v (in use %d, waiters %d)", deadline, feeders, len(plan.Sources), pending, p.VerifPoolInUse(), p.VerifPoolWaiters())
 		s.failf("C02", "unaccounted-events", "accepted events neither committed nor dropped when the run ended: %v", pending)
+		if plan.DeadQueue != nil && s.res.GiveUps > 0 {
+			// dead-queue routing of one batch must leave the other main batches alone: an event whose
+			// send succeeded on the main output is committed by the main output
+			var lost []int
+			for id, st := range s.ev {
+				if st.kid == nil && st.acked && st.ackBy == "main" && !st.gaveUp && st.committed == 0 {
+					lost = append(lost, id)
+				}
+			}
+			sort.Ints(lost)
+			if len(lost) > 0 {
+				s.failf("C09", "main-batch-never-committed-after-a-give-up", "events %v were sent successfully by the main output and never committed; %d batch(es) were given up to the dead queue in this run", lost, s.res.GiveUps)
+			}
+		}
 		if feeders == len(plan.Sources) && p.VerifPoolWaiters() == 0 {
 			// nothing is being read, nothing moved for the whole deadline (far above the event time-out and
 			// every flush interval): the pipeline is idle, yet events are still out of the pool
